@@ -21,93 +21,141 @@ fn attach(o: &Observable<'static, u8>, log: &'static Log) -> Subscription<'stati
   )
 }
 
-#[kani::proof]
-#[kani::unwind(4)]
-fn k_conn_publish__connect_shares_one_subscription() {
-  let slot: &'static Slot<Observer<'static, u8>> = Slot::new();
-  let slog = Log::new();
-  let l1 = Log::new();
-  let l2 = Log::new();
-  let p = counted_source(slot, slog).publish();
-  let o = p.observable();
-  let _s1 = attach(&o, l1);
-  let _s2 = attach(&o, l2);
+macro_rules! conn_h {
+  ($name:ident, |$slot:ident, $slog:ident, $l1:ident, $l2:ident, $src:ident| $body:block) => {
+    #[kani::proof]
+    #[kani::unwind(4)]
+    fn $name() {
+      let $slot: &'static Slot<Observer<'static, u8>> = Slot::new();
+      let $slog = Log::new();
+      let $l1 = Log::new();
+      let $l2 = Log::new();
+      let $src = counted_source($slot, $slog);
+      $body;
+      kani::cover!(true, "harness reaches its end");
+    }
+  };
+}
+
+// ---- publish -----------------------------------------------------------------------------------------------------
+conn_h!(k_conn_publish__subscribes_source_only_on_connect, |slot, slog, l1, l2, src| {
+  let p = src.publish();
+  let _s1 = attach(&p.observable(), l1);
   assert!(slog.count(EV_S) == 0, "conn.publish: the source was subscribed before connect()");
-  let conn = p.connect();
+  let _conn = p.connect();
   assert!(slog.count(EV_S) == 1, "conn.publish: connect() did not subscribe the source exactly once");
   let x: u8 = kani::any();
   slot.get().unwrap().next(x);
+  assert!(l1.is(&[EV_N | x as u32]), "conn.publish: a subscriber present at connect did not see the item once");
+});
+conn_h!(k_conn_publish__two_subscribers_see_the_same, |slot, slog, l1, l2, src| {
+  let p = src.publish();
+  let o = p.observable();
+  let _s1 = attach(&o, l1);
+  let _s2 = attach(&o, l2);
+  let _conn = p.connect();
+  let x: u8 = kani::any();
+  slot.get().unwrap().next(x);
   assert!(l1.is(&[EV_N | x as u32]) && l2.is(&[EV_N | x as u32]), "conn.publish: subscribers present at connect did not see the same item once");
+  assert!(slog.count(EV_S) == 1, "conn.publish: more than one source subscription");
+});
+conn_h!(k_conn_publish__disconnect_stops_source, |slot, slog, l1, l2, src| {
+  let p = src.publish();
+  let _s1 = attach(&p.observable(), l1);
+  let conn = p.connect();
   conn.unsubscribe();
   assert!(!slot.get().unwrap().is_subscribed(), "conn.publish: unsubscribing the connection did not stop the source");
   slot.get().unwrap().next(kani::any());
-  assert!(l1.len() == 1 && l2.len() == 1, "conn.publish: items delivered after the connection was unsubscribed");
-  kani::cover!(true, "harness reaches its end");
-}
+  assert!(l1.len() == 0, "conn.publish: items delivered after the connection was unsubscribed");
+});
+conn_h!(k_conn_publish__reconnect_gets_a_live_subscription, |slot, slog, l1, l2, src| {
+  let p = src.publish();
+  let _s1 = attach(&p.observable(), l1);
+  let conn1 = p.connect();
+  conn1.unsubscribe();
+  let _conn2 = p.connect();
+  assert!(slog.count(EV_S) == 2, "conn.publish: the second connect() did not subscribe the source again");
+  assert!(slot.get().unwrap().is_subscribed(), "conn.publish: the source subscription made by the second connect() is not live");
+  let x: u8 = kani::any();
+  slot.get().unwrap().next(x);
+  assert!(l1.is(&[EV_N | x as u32]), "conn.publish: a subscriber that never left did not see the item emitted after reconnecting");
+});
 
-#[kani::proof]
-#[kani::unwind(4)]
-fn k_conn_refcount__first_in_last_out() {
-  let slot: &'static Slot<Observer<'static, u8>> = Slot::new();
-  let slog = Log::new();
-  let l1 = Log::new();
-  let l2 = Log::new();
-  let rc = counted_source(slot, slog).ref_count();
+// ---- ref_count ---------------------------------------------------------------------------------------------------
+conn_h!(k_conn_refcount__first_subscriber_connects, |slot, slog, l1, l2, src| {
+  let rc = src.ref_count();
   let o = rc.observable();
   assert!(slog.count(EV_S) == 0, "conn.ref_count: the source was subscribed before the first subscriber");
-  let s1 = attach(&o, l1);
+  let _s1 = attach(&o, l1);
   assert!(slog.count(EV_S) == 1, "conn.ref_count: the first subscriber did not connect the source exactly once");
-  let s2 = attach(&o, l2);
+  let x: u8 = kani::any();
+  slot.get().unwrap().next(x);
+  assert!(l1.is(&[EV_N | x as u32]), "conn.ref_count: the subscriber did not see the item once");
+});
+conn_h!(k_conn_refcount__second_subscriber_shares, |slot, slog, l1, l2, src| {
+  let rc = src.ref_count();
+  let o = rc.observable();
+  let _s1 = attach(&o, l1);
+  let _s2 = attach(&o, l2);
   assert!(slog.count(EV_S) == 1, "conn.ref_count: a second source subscription was made");
   let x: u8 = kani::any();
   slot.get().unwrap().next(x);
   assert!(l1.is(&[EV_N | x as u32]) && l2.is(&[EV_N | x as u32]), "conn.ref_count: subscribers did not see the same item once");
+});
+conn_h!(k_conn_refcount__last_out_stops_source, |slot, slog, l1, l2, src| {
+  let rc = src.ref_count();
+  let o = rc.observable();
+  let s1 = attach(&o, l1);
+  let s2 = attach(&o, l2);
   s1.unsubscribe();
   assert!(slot.get().unwrap().is_subscribed(), "conn.ref_count: the source was stopped while a subscriber remained");
   s2.unsubscribe();
   assert!(!slot.get().unwrap().is_subscribed(), "conn.ref_count: the last subscriber left but the source is still subscribed");
   assert!(slog.count(EV_T) == 1, "conn.ref_count: the source teardown did not run exactly once");
-  kani::cover!(true, "harness reaches its end");
-}
-
-// PROBE: after the last subscriber left, a new first subscriber must connect the source again (one live subscription)
-#[kani::proof]
-#[kani::unwind(4)]
-fn k_conn_probe__refcount_reconnects() {
-  let slot: &'static Slot<Observer<'static, u8>> = Slot::new();
-  let slog = Log::new();
-  let l1 = Log::new();
-  let l2 = Log::new();
-  let rc = counted_source(slot, slog).ref_count();
+});
+// PROBE (known finding): after the last subscriber left, a new first subscriber must connect the source again
+conn_h!(k_conn_probe__refcount_reconnects, |slot, slog, l1, l2, src| {
+  let rc = src.ref_count();
   let o = rc.observable();
   let s1 = attach(&o, l1);
   s1.unsubscribe();
   let _s2 = attach(&o, l2);
-  assert!(slog.count(EV_S) == 2, "conn.ref_count: a first subscriber arriving after everybody left did not subscribe the source again");
-  assert!(slot.get().unwrap().is_subscribed(), "conn.ref_count: no live source subscription for the new subscriber");
-  kani::cover!(true, "harness reaches its end");
-}
+  assert!(slog.count(EV_S) == 2, "conn.reconnect: a first subscriber arriving after everybody left did not subscribe the source again");
+});
 
-#[kani::proof]
-#[kani::unwind(4)]
-fn k_conn_replay__late_subscriber_gets_everything_once() {
-  let slot: &'static Slot<Observer<'static, u8>> = Slot::new();
-  let slog = Log::new();
-  let l1 = Log::new();
-  let l2 = Log::new();
-  let rp = counted_source(slot, slog).replay();
+// ---- replay -------------------------------------------------------------------------------------------------------
+conn_h!(k_conn_replay__late_subscriber_gets_history_once, |slot, slog, l1, l2, src| {
+  let rp = src.replay();
   let o = rp.observable();
   let _s1 = attach(&o, l1);
   assert!(slog.count(EV_S) == 1, "conn.replay: the first subscriber did not connect the source exactly once");
   let x: u8 = kani::any();
-  let y: u8 = kani::any();
   slot.get().unwrap().next(x);
-  let s2 = attach(&o, l2);
+  let _s2 = attach(&o, l2);
   assert!(slog.count(EV_S) == 1, "conn.replay: a second source subscription was made");
+  assert!(l1.is(&[EV_N | x as u32]), "conn.replay: first subscriber trace differs");
+  assert!(l2.is(&[EV_N | x as u32]), "conn.replay: a late subscriber did not get the complete sequence from the beginning, each item once");
+});
+conn_h!(k_conn_replay__late_subscriber_then_live, |slot, slog, l1, l2, src| {
+  let rp = src.replay();
+  let o = rp.observable();
+  let _s1 = attach(&o, l1);
+  let _s2 = attach(&o, l2);
+  let y: u8 = kani::any();
   slot.get().unwrap().next(y);
-  assert!(l1.is(&[EV_N | x as u32, EV_N | y as u32]), "conn.replay: first subscriber trace differs");
-  assert!(l2.is(&[EV_N | x as u32, EV_N | y as u32]), "conn.replay: a late subscriber did not get the complete sequence from the beginning, each item once");
-  s2.unsubscribe();
+  assert!(l1.is(&[EV_N | y as u32]) && l2.is(&[EV_N | y as u32]), "conn.replay: live item not delivered once to every subscriber");
+});
+conn_h!(k_conn_replay__first_leaves_second_stays, |slot, slog, l1, l2, src| {
+  let rp = src.replay();
+  let o = rp.observable();
+  let s1 = attach(&o, l1);
+  let s2 = attach(&o, l2);
+  s1.unsubscribe();
   assert!(slot.get().unwrap().is_subscribed(), "conn.replay: the source was stopped while a subscriber remained");
-  kani::cover!(true, "harness reaches its end");
-}
+  assert!(s2.is_subscribed(), "conn.replay: the remaining subscriber's subscription ended when the other one left");
+  let y: u8 = kani::any();
+  slot.get().unwrap().next(y);
+  assert!(l2.is(&[EV_N | y as u32]), "conn.replay: the remaining subscriber lost a live item after the other one left");
+  s2.unsubscribe();
+  assert!(!slot.get().unwrap().is_subscribed(), "conn.replay: the last subscriber left but the source is still subscribed");
+});
